@@ -41,8 +41,9 @@ type thread struct {
 	selCases      []*selCase
 	spins         int
 	lastPanicSite string
-	hpoints       int // harness-level scheduling points passed (vGo, vYield, vQuiesce)
-	lpoints       int // library-level points passed that the native sync/atomic shim reproduces
+	hpoints       int      // harness-level scheduling points passed (vGo, vYield, vQuiesce)
+	lpoints       int      // library-level points passed that the native sync/atomic shim reproduces
+	lsites        []string // where the first counted points were (diagnostics of replay drift)
 }
 
 type switchEv struct {
@@ -198,6 +199,9 @@ func (t *thread) switchTo(u *thread, reason string) {
 func (t *thread) schedPointAt(fr *frame, kind string) {
 	if fr != nil && fr.i.countable(fr) {
 		t.lpoints++
+		if len(t.lsites) < 120 {
+			t.lsites = append(t.lsites, kind+"@"+callerSite(fr))
+		}
 		t.schedPointK(kind, true)
 		return
 	}
@@ -339,6 +343,9 @@ func (r *run) spawn(parent *thread, fn value, args []value, lib bool, origin str
 		parent.schedPoint("go")
 	case counted:
 		parent.lpoints++
+		if len(parent.lsites) < 120 {
+			parent.lsites = append(parent.lsites, "go@"+origin)
+		}
 		parent.schedPointK("lgo", true)
 	default:
 		parent.schedPoint("lgo")
